@@ -4,7 +4,7 @@
    Non-vacuity: Eip712_proofs.c03_domain_inhabited, Signer_proofs.toy_signer_shape,
    Signer_proofs.toy_roundtrip. *)
 From Coq Require Import String List NArith ZArith Bool.
-From MevVerif Require Import lib.Bytes gen.Generated model.Eip712 model.Signer
+From MevVerif Require Import lib.Bytes lib.Keccak gen.Generated model.Eip712 model.Signer
   proofs.Eip712_proofs proofs.Signer_proofs.
 Import ListNotations.
 Open Scope N_scope.
@@ -70,15 +70,17 @@ Theorem C03_hex_is_lowercase : forall l, wf_bytes l ->
 Proof. exact hex_lowercase. Qed.
 Print Assumptions C03_hex_is_lowercase.
 
-(* Signatures are emitted as 65 bytes r||s||v with v in {27,28}: whenever the key signer
-   answers 65 bytes whose last byte is 0, 1, 27 or 28, every bid built by ConstructSignedBid
-   carries the digest of its own fields and such a signature, ... *)
+(* The digest the node SIGNS, and the form of the signature.  Whenever the key signer answers 65
+   bytes whose last byte is 0, 1, 27 or 28: every bid built by ConstructSignedBid carries the
+   digest d of its own fields, and its signature is the key signer's answer FOR THAT d with
+   r||s untouched and v brought to 27/28 (sign_normalised), 65 bytes, v in {27,28}; ... *)
 Theorem C03_v_bid : forall (K : bytes -> bytes) (cr : crypto) tx amt bn ds de b,
   (forall h sg, sign cr h = Ok sg ->
      length sg = 65%nat /\ exists v, nth_error sg 64 = Some v /\ (v = 0 \/ v = 1 \/ v = 27 \/ v = 28)) ->
   construct_bid K cr tx amt bn ds de = Ok b ->
   b_tx b = tx /\ b_amt b = amt /\ b_bn b = bn /\ b_ds b = ds /\ b_de b = de /\
-  exists d sig, b_dig b = Some d /\ bid_hash K b = Ok d /\ b_sig b = Some sig /\
+  exists d sig sg, b_dig b = Some d /\ bid_hash K b = Ok d /\ b_sig b = Some sig /\
+    sign_normalised cr d = Ok sig /\ sign cr d = Ok sg /\ firstn 64 sig = firstn 64 sg /\
     length sig = 65%nat /\ (nth_error sig 64 = Some 27 \/ nth_error sig 64 = Some 28).
 Proof. exact construct_bid_shape. Qed.
 Print Assumptions C03_v_bid.
@@ -88,8 +90,63 @@ Theorem C03_v_commitment : forall (K : bytes -> bytes) (cr : crypto) ob c,
   (forall h sg, sign cr h = Ok sg ->
      length sg = 65%nat /\ exists v, nth_error sg 64 = Some v /\ (v = 0 \/ v = 1 \/ v = 27 \/ v = 28)) ->
   construct_preconf K cr ob = Ok c ->
-  exists b d sig, ob = Some b /\ c_bid c = Some b /\ c_dig c = Some d /\
+  exists b d sig sg, ob = Some b /\ c_bid c = Some b /\ c_dig c = Some d /\
     commitment_hash K c = Ok d /\ c_sig c = Some sig /\
+    sign_normalised cr d = Ok sig /\ sign cr d = Ok sg /\ firstn 64 sig = firstn 64 sg /\
     length sig = 65%nat /\ (nth_error sig 64 = Some 27 \/ nth_error sig 64 = Some 28).
 Proof. exact construct_preconf_shape. Qed.
 Print Assumptions C03_v_commitment.
+
+(* The property sentence in one statement: for a bid in the uint64 domain, what the node stores
+   as digest AND hands to its key signer is the EIP-712 hash of the typed-data message. *)
+Theorem C03_signed_digest_is_eip712 : forall (K : bytes -> bytes) (cr : crypto) tx amt bn ds de b A,
+  (forall h sg, sign cr h = Ok sg ->
+     length sg = 65%nat /\ exists v, nth_error sg 64 = Some v /\ (v = 0 \/ v = 1 \/ v = 27 \/ v = 28)) ->
+  construct_bid K cr tx amt bn ds de = Ok b ->
+  parse_amount amt = Some A ->
+  (0 <= A < 2 ^ 64)%Z -> (0 <= bn < 2 ^ 63)%Z -> (0 <= ds < 2 ^ 63)%Z -> (0 <= de < 2 ^ 63)%Z ->
+  let d := eip712_hash K domain_schema bid_domain bid_schema
+             (bid_values tx (Z.to_N A) (Z.to_N bn) (Z.to_N ds) (Z.to_N de)) in
+  b_dig b = Some d /\
+  exists sig sg, b_sig b = Some sig /\ sign cr d = Ok sg /\ sign_normalised cr d = Ok sig /\
+    firstn 64 sig = firstn 64 sg /\
+    length sig = 65%nat /\ (nth_error sig 64 = Some 27 \/ nth_error sig 64 = Some 28).
+Proof. exact construct_bid_signs_eip712. Qed.
+Print Assumptions C03_signed_digest_is_eip712.
+
+Theorem C03_signed_commitment_digest_is_eip712 : forall (K : bytes -> bytes) (cr : crypto) b c A,
+  (forall h sg, sign cr h = Ok sg ->
+     length sg = 65%nat /\ exists v, nth_error sg 64 = Some v /\ (v = 0 \/ v = 1 \/ v = 27 \/ v = 28)) ->
+  construct_preconf K cr (Some b) = Ok c ->
+  parse_amount (b_amt b) = Some A ->
+  (0 <= A < 2 ^ 64)%Z -> (0 <= b_bn b < 2 ^ 63)%Z -> (0 <= b_ds b < 2 ^ 63)%Z -> (0 <= b_de b < 2 ^ 63)%Z ->
+  let d := eip712_hash K domain_schema commitment_domain commitment_schema
+             (commitment_values (b_tx b) (Z.to_N A) (Z.to_N (b_bn b)) (Z.to_N (b_ds b)) (Z.to_N (b_de b))
+                                (obytes (b_dig b)) (obytes (b_sig b))) in
+  c_bid c = Some b /\ c_dig c = Some d /\
+  exists sig sg, c_sig c = Some sig /\ sign cr d = Ok sg /\ sign_normalised cr d = Ok sig /\
+    firstn 64 sig = firstn 64 sg /\
+    length sig = 65%nat /\ (nth_error sig 64 = Some 27 \/ nth_error sig 64 = Some 28).
+Proof. exact construct_preconf_signs_eip712. Qed.
+Print Assumptions C03_signed_commitment_digest_is_eip712.
+
+(* Delimitation: amounts in [2^64, 2^256) are hashed (and therefore signed) by the node although
+   no uint64 member of the published schema can hold them -- outside the claim above. *)
+Theorem C03_outside_schema : forall (K : bytes -> bytes) (b : bid) (A : Z),
+  parse_amount (b_amt b) = Some A -> (2 ^ 64 <= A < 2 ^ 256)%Z ->
+  (exists d, bid_hash K b = Ok d) /\
+  forall bn ds de, well_typed (s_members bid_schema) (bid_values (b_tx b) (Z.to_N A) bn ds de) = false.
+Proof. exact bid_hash_outside_schema. Qed.
+Print Assumptions C03_outside_schema.
+
+(* The generic specification, run with the executable Keccak-256, reproduces the two values of
+   the repository's TestHashing that were obtained from the Solidity contract. *)
+Theorem C03_contract_vectors :
+  hex (eip712_bid keccak256 (bos "0xkartik") 200 3000 10 30) =
+    bos "a837b0c680d4b9b11011ac6225670498d845e65f1dc340b00694d74a6ca0a049" /\
+  hex (eip712_commitment keccak256 (bos "0xkartik") 2 2 10 20
+         (x "a0327970258c49b922969af74d60299a648c50f69a2d98d6ab43f32f64ac2100")
+         (x "876c1216c232828be9fabb14981c8788cebdf6ed66e563c4a2ccc82a577d052543207aeeb158a32d8977736797ae250c63ef69a82cd85b727da21e20d030fb311b")) =
+    bos "54c118e537dd7cf63b5388a5fc8322f0286a978265d0338b108a8ca9d155dccc".
+Proof. exact (conj contract_vector_bid contract_vector_commitment). Qed.
+Print Assumptions C03_contract_vectors.
